@@ -1,5 +1,6 @@
 """C04 - rewriting touches nothing but the matched spans."""
 from campaigns.life import Life, Locale, WriteFault
+from campaigns.commitfail import CommitFail
 
 PROPERTY = "C04"
 LEVEL = "exploration"
@@ -15,7 +16,8 @@ ASSUMPTIONS = ["template model of file content; filler never contains '@' or lin
 COMPONENTS = {"bumpver cli update, rewrite": "real", "files": "real scratch directory", "clock": "simulated",
               "process locale": "real child interpreter for the ASCII-locale leg"}
 CAMPAIGNS = [Life("C04", quick=9000, thorough=400000, mode="bytes", sv_rate=0.05, vcs="none"),
-             Locale("C04", quick=320, thorough=16000), WriteFault("C04", quick=1500, thorough=60000)]
+             Locale("C04", quick=320, thorough=16000), WriteFault("C04", quick=1500, thorough=60000),
+             CommitFail("C04", quick=160, thorough=4000)]
 
 
 def sanity_gate(tier, total):
